@@ -14,14 +14,14 @@ func init() { generators["Guard"] = genGuard }
 // the action names normalised to the vocabulary of the verified checker CM/Lib/Guard.lean:
 // "lock", "unlock", "access" (everything else keeps its name and is inert for the checker).
 type guardFamily struct {
-	id      string
-	files   []string // base names; empty = all files
-	state   []string // map names, or "field:<name>" for fields / package variables
-	lock    []string // exact call names (suffix match) that lock the family's mutex
-	unlock  []string
-	helpers []string // functions that expect the mutex to be held by the caller (their calls are accesses)
-	sinks   []string // call names (suffix match) that count as accesses (gate family: issuing / loading calls)
-	writesOnly bool  // only map writes and deletes count as accesses (with lock = the EXCLUSIVE lock only: no write under a read lock)
+	id         string
+	files      []string // base names; empty = all files
+	state      []string // map names, or "field:<name>" for fields / package variables
+	lock       []string // exact call names (suffix match) that lock the family's mutex
+	unlock     []string
+	helpers    []string // functions that expect the mutex to be held by the caller (their calls are accesses)
+	sinks      []string // call names (suffix match) that count as accesses (gate family: issuing / loading calls)
+	writesOnly bool     // only map writes and deletes count as accesses (with lock = the EXCLUSIVE lock only: no write under a read lock)
 }
 
 var guardFamilies = []guardFamily{
